@@ -196,15 +196,17 @@ package replicator
 // processItems (fetch + queue the ancestors): it reports success only if every item's fetch succeeded — a
 // failure is never swallowed (the caller records the item as fetched on success, for good). nfail counts the
 // processHash calls of this run that failed. The processes spawned for the ancestors are asserted to find a
-// queued item (the hash was just queued).
+// queued item (the hash was just queued). Every link of a fetched entry is offered to the queue: the loop over
+// them has no early exit (a known link says nothing about the links listed after it: think of a merge entry).
 //@ func (*replicator).processItems
-//@   props C11 C10
+//@   props C11 C10 C01
 //@   flag nilcalls
 //@   requires wfr(r)
 //@   requires forall j Int :: 0 <= j && j < len(items) ==> items[j] != nil
 //@   requires forall j Int :: 0 <= j && j < len(deref(r.queue)) ==> deref(r.queue)[j] != nil
 //@   count @ after call r.processHash#1 when $r1 != nil: nfail
 //@   loop 1 invariant wfr(r) && nfail == 0 && (forall j Int :: 0 <= j && j < len(deref(r.queue)) ==> deref(r.queue)[j] != nil)
+//@   loop 1.1 noexit
 //@   loop 1.1 invariant wfr(r) && nfail == 0 && (forall j Int :: 0 <= j && j < len(deref(r.queue)) ==> deref(r.queue)[j] != nil)
 //@   ensures (result == nil) == (nfail == 0)
 //@   modifies "F:replicator.replicator.buffer", "MD:V_cid_Cid:Int", "MV:V_cid_Cid:Int", "MC:V_cid_Cid:Int", "C:Slice_Iface", "G:lastFetched", "G:fetchCalls"
